@@ -209,7 +209,8 @@ func (vm *VirtualMachine) runCodeInternal(ctx context.Context, codeToRun *compil
 	var codeObj *code
 
 	// Check if we already have this code loaded
-	if existingCode, exists := vm.loadedCode[codeToRun]; exists {
+	existingCode, exists := vm.loadedCode[codeToRun]
+	if exists {
 		if !resetState {
 			// For Run(), we need to preserve globals from previous runs (REPL behavior)
 			// Use reloadCode to get fresh code with preserved globals
@@ -230,10 +231,13 @@ func (vm *VirtualMachine) runCodeInternal(ctx context.Context, codeToRun *compil
 		}
 	}
 
-	// Activate the entrypoint code in frame zero
-	// Use vm.ip for Run (preserving existing behavior), 0 for RunCode
+	// Activate the entrypoint code in frame zero. Run resumes where the
+	// previous run of this code stopped (REPL behavior), RunCode starts at 0.
+	// The saved ip only belongs to this code if it is still loaded: after a
+	// RunCode of other code it is an offset into that other code, and Run
+	// starts from the beginning again.
 	startIP := 0
-	if !resetState {
+	if !resetState && exists {
 		startIP = vm.ip
 	}
 	vm.activateCode(0, startIP, codeObj)
